@@ -103,6 +103,12 @@ pub struct TextSpec {
     pub no_final_eol: bool,
     /// the text starts with a UTF-8 byte order mark (U+FEFF), as some editors write it
     pub bom: bool,
+    /// boundary texts: 1 = completely empty, 2 = nothing but a comment
+    pub blank: u8,
+    /// pad the text with a trailing comment to exactly this many bytes (powers of two)
+    pub pad_to: usize,
+    /// also declare `class DUP;` (the same name in several files: a coincidence real projects have)
+    pub dup_class: bool,
     /// add multi-line constructs: a defset with an anonymous def, a class whose template
     /// arguments continue on the next line, let / foreach blocks, a def spanning two lines
     pub rich: bool,
@@ -124,6 +130,12 @@ impl TextSpec {
         let e = self.eol.s();
         let k = &self.key;
         let n = self.version;
+        if self.blank == 1 {
+            return String::new();
+        }
+        if self.blank == 2 {
+            return format!("// nothing but a comment {}{}", self.version, self.eol.s());
+        }
         let mut s = String::new();
         if self.bom {
             s.push('\u{FEFF}');
@@ -137,8 +149,8 @@ impl TextSpec {
         }
         for inc in &self.includes {
             if self.dotted && self.version % 2 == 0 {
-                // through the parent directory and back ("/w/../w/b.td")
-                s.push_str(&format!("include \"../w/{inc}\"{e}"));
+                // through the parent directory and back ("/w+x/../w+x/b.td")
+                s.push_str(&format!("include \"../w+x/{inc}\"{e}"));
             } else if self.dotted {
                 s.push_str(&format!("include \"./{inc}\"{e}"));
             } else {
@@ -229,7 +241,14 @@ impl TextSpec {
                 .collect::<Vec<_>>()
                 .join(e);
         }
-        if self.no_final_eol && s.ends_with(e) {
+        if self.dup_class {
+            s.push_str(&format!("class DUP;{e}"));
+        }
+        if self.pad_to > s.len() + 4 + e.len() && self.fault != Some(Fault::EofSyntax) {
+            // a trailing comment that brings the text to exactly `pad_to` bytes
+            let fill = self.pad_to - s.len() - 3 - e.len();
+            s.push_str(&format!("// {}{e}", "p".repeat(fill)));
+        } else if self.no_final_eol && s.ends_with(e) {
             let cut = s.len() - e.len();
             s.truncate(cut);
         }
@@ -275,8 +294,10 @@ pub fn name_offsets(text: &str) -> Vec<(u32, String)> {
     identifier_offsets(text).into_iter().filter(|(_, t)| !KEYWORDS.contains(&t.as_str())).collect()
 }
 
-pub const DIR: &str = "/w";
-pub const INC_DIR: &str = "/w/inc";
+// the directory name has a character that editors percent-encode in URIs and the url crate
+// does not ("clang+llvm-18" is a real example)
+pub const DIR: &str = "/w+x";
+pub const INC_DIR: &str = "/w+x/inc";
 
 pub fn path_of_key(key: &str) -> String {
     if key == "d" {
@@ -368,6 +389,13 @@ pub fn gen_text(rng: &mut Rng, vs: &mut Versions, key: &str, includable: &[&str]
         trail: rng.chance(1, 5),
         no_final_eol: rng.chance(1, 5),
         bom: rng.chance(1, 20),
+        blank: match rng.below(60) {
+            0 => 1,
+            1 => 2,
+            _ => 0,
+        },
+        pad_to: if rng.chance(1, 30) { [1024, 2048, 4096, 8192, 16384][rng.below(5)] } else { 0 },
+        dup_class: rng.chance(1, 8),
         pp: cfg.eol == Eol::Lf && rng.chance(1, 3),
         bulk: if rng.chance(1, 40) { if rng.chance(1, 2) { rng.range(100, 300) } else { rng.range(480, 800) } } else { 0 },
         bulk_variant: false,
@@ -396,7 +424,9 @@ pub fn edit_text(rng: &mut Rng, vs: &mut Versions, prev: &TextSpec, includable: 
         return t;
     }
     t.version = vs.next();
-    match rng.below(14) {
+    match rng.below(16) {
+        15 => t.blank = if t.blank == 0 { rng.range(1, 2) as u8 } else { 0 },
+        14 => t.dup_class = !t.dup_class,
         13 => t.rich2 = !t.rich2,
         12 => t.pp = cfg.eol == Eol::Lf && !t.pp,
         11 => t.no_final_eol = !t.no_final_eol,
@@ -488,6 +518,7 @@ pub fn sample_knobs(rng: &mut Rng, concurrency: usize, include_dir: bool) -> Kno
         chunk_seed: rng.next_u64(),
         strategy: sample_strategy(rng),
         include_dir: if include_dir { Some(INC_DIR.to_string()) } else { None },
+        vscode_uris: rng.chance(1, 2),
     }
 }
 
